@@ -26,6 +26,12 @@ type C16Case struct {
 	NilMap  bool              `json:"nil_mapping,omitempty"`
 	Expand  string            `json:"expand,omitempty"` // contents: true | false | absent
 	Present uint              `json:"present,omitempty"`
+	Fmt     string            `json:"override_format,omitempty"` // format instantiating overrides.<format> ("" = deb)
+	Syntax  string            `json:"syntax,omitempty"`          // unknown-key: how the undefined key is spelt (quoted, explicit, merge, tagged, flow)
+	IVal    string            `json:"injected_value,omitempty"`  // unknown-key: value shape of the undefined key (scalar, map, list, null)
+	Path2   []string          `json:"path2,omitempty"`           // expand-pair: the second leaf
+	Kind2   string            `json:"kind2,omitempty"`
+	Mode    string            `json:"mode,omitempty"` // all-at-once: plain | refs
 }
 
 func c16Base() map[string]any {
@@ -118,13 +124,23 @@ func configShape() ([]cfgLeaf, []cfgLevel) {
 
 var c16Values = []string{"plain", "${V}", "pre-$V-post", "  $E  ", "  padded  "}
 
+// c16ValuesThorough: further shapes - a bare variable name, brace/percent look-alikes, doubled and adjacent
+// references, '$' at the end, an unset variable, references padded with blanks, non-ASCII text.
+var c16ValuesThorough = []string{"V", "{V}", "%V%", "a b", "ünï-cödé", "$V", "${V}${V}", "$V$V", "x${V}", "${V}x", "${UNSET}", "$UNSET", "a$", " ${V} ", "${V} ${W}", "$W-$V", "$V_x", "${V}_x"}
+
+// hostileEnv answers every variable name (and anything else it is asked) with a marker: a value that contains no
+// '$' must still come back as written.
+var hostileEnv = map[string]string{"*": "HOSTILE"}
+
 func init() {
 	engine.Register(&engine.Prop{
 		ID:    "C16",
 		Level: "model_checking",
 		Rule: "unknown-key: through every public entry point of the parser (ParseWithEnvMapping, Parse, ParseFile(path), ParseFile(-) reading stdin, ParseFileWithEnvMapping), every mapping level of the configuration types (reflection over nfpm.Config of the tree under test: top level, every nested block, list elements, overrides.<format>.*, file_info) with an undefined sibling key injected, and every leaf key misspelt, must be rejected; " +
 			"expand: every string / *string / string-list / string-map leaf x values {plain, ${V}, pre-$V-post, '  $E  ', '  padded  '} x mappings {V=val, V=empty, nil mapping}: values without '$' unchanged (list items trimmed), fields documented as expandable in configuration.md (parsed at run time) substituted with the caller's mapping, empty list items dropped; " +
-			"contents src/dst expanded iff expand:true (true/false/absent, top level and overrides); all 2^4 presence combinations of the four passphrase variables; non-trivial = document exercised the parser; distinct = distinct (path, value, mapping, outcome)",
+			"contents src/dst expanded iff expand:true (true/false/absent, top level and overrides); all 2^4 presence combinations of the four passphrase variables; " +
+			"the undefined key also spelt as a quoted key, an explicit '? key', a merge key '<<: {key: x}' and a tagged key, and carrying a map, a list or null, at every level; a mapping that answers every name with a marker for every string leaf; all-at-once: every string-valued leaf set to its own unique value in one document (plain, and documented fields each referring to their own variable) for each override format - nothing may leak between fields; " +
+			"thorough: overrides.<format> levels and leaves for all five formats, 18 further value shapes (bare variable name, look-alikes, doubled/adjacent/unset references, '$' at the end, padded references) x 4 mappings (incl. values with blanks/newline, answer-everything), every pair of documented expandable leaves referring to different variables; non-trivial = document exercised the parser; distinct = distinct (path, value, mapping, outcome)",
 		Assumptions: []string{
 			"fields the code expands beyond the documented set are not judged when they contain '$'",
 			"documented defaults applied after expansion (empty arch -> amd64, platform -> linux, description -> 'no description given') are part of the oracle",
@@ -133,7 +149,7 @@ func init() {
 		Decode: decodeInto[C16Case],
 		Bounds: func(env *engine.Env) map[string]any {
 			l, lv := configShape()
-			return map[string]any{"leaves": len(l), "mapping_levels": len(lv), "values": c16Values}
+			return map[string]any{"leaves": len(l), "mapping_levels": len(lv), "values": c16Values, "values_thorough": c16ValuesThorough, "key_syntaxes": []string{"plain", "quoted", "explicit", "merge", "tagged"}, "injected_value_shapes": []string{"scalar", "map", "list", "null"}}
 		},
 		Enumerate: func(env *engine.Env, yield func(any) bool) {
 			leaves, levels := configShape()
@@ -185,6 +201,123 @@ func init() {
 					return
 				}
 			}
+			// the undefined key spelt in other YAML syntaxes and carrying other value shapes, at every level
+			for _, lv := range levels {
+				for _, syn := range []string{"quoted", "explicit", "merge", "tagged"} {
+					if !yield(C16Case{Part: "unknown-key", Path: lv.Path, Inject: "zz_undefined_key", Syntax: syn}) {
+						return
+					}
+				}
+				for _, iv := range []string{"map", "list", "null"} {
+					if !yield(C16Case{Part: "unknown-key", Path: lv.Path, Inject: "zz_undefined_key", IVal: iv}) {
+						return
+					}
+				}
+			}
+			// every string-valued leaf set at once to its own value: nothing may leak from one field into another
+			for _, f := range Formats {
+				for _, mode := range []string{"plain", "refs"} {
+					if !yield(C16Case{Part: "all-at-once", Mode: mode, Fmt: f}) {
+						return
+					}
+				}
+			}
+			// a mapping that answers every name: values without '$' stay as written
+			for _, lf := range leaves {
+				switch lf.Kind {
+				case "string", "strptr", "strlist", "strmap":
+					for _, v := range []string{"plain", "V", "  padded  "} {
+						if !yield(C16Case{Part: "expand", Path: lf.Path, Kind: lf.Kind, Value: v, Env: hostileEnv}) {
+							return
+						}
+					}
+				}
+			}
+			if !env.Thorough() {
+				return
+			}
+			underFmt := func(p []string) bool { return indexOf(p, "{fmt}") >= 0 }
+			for _, f := range Formats[1:] { // deb is the default instantiation above
+				for _, lv := range levels {
+					if !underFmt(lv.Path) {
+						continue
+					}
+					for _, inj := range []string{"zz_undefined_key", "Name", "x-extra"} {
+						if !yield(C16Case{Part: "unknown-key", Path: lv.Path, Inject: inj, Fmt: f}) {
+							return
+						}
+					}
+				}
+				for _, lf := range leaves {
+					if !underFmt(lf.Path) {
+						continue
+					}
+					p := append(append([]string{}, lf.Path[:len(lf.Path)-1]...), lf.Path[len(lf.Path)-1]+"x")
+					if !yield(C16Case{Part: "unknown-key", Path: p[:len(p)-1], Inject: p[len(p)-1], Kind: "misspelt:" + lf.Kind, Fmt: f}) {
+						return
+					}
+				}
+			}
+			thEnvs := []map[string]string{{"V": "val", "W": "wal"}, {"V": "", "W": "wal"}, {"V": " spaced ", "W": "\n"}, hostileEnv}
+			for _, f := range Formats {
+				for _, lf := range leaves {
+					switch lf.Kind {
+					case "string", "strptr", "strlist", "strmap":
+					default:
+						continue
+					}
+					vals := c16ValuesThorough
+					if f != "deb" {
+						if !underFmt(lf.Path) {
+							continue
+						}
+						vals = append(append([]string{}, c16Values...), c16ValuesThorough...)
+					}
+					for _, v := range vals {
+						for _, e := range thEnvs {
+							if !yield(C16Case{Part: "expand", Path: lf.Path, Kind: lf.Kind, Value: v, Env: e, Fmt: f}) {
+								return
+							}
+						}
+					}
+				}
+				for _, where := range [][]string{{"contents"}, {"overrides", "{fmt}", "contents"}} {
+					if f != "deb" && len(where) == 1 {
+						continue
+					}
+					for _, ex := range []string{"true", "false", "absent"} {
+						for _, v := range append(append([]string{}, c16Values...), c16ValuesThorough...) {
+							for _, e := range thEnvs {
+								if f == "deb" && len(e) == 1 && e["V"] == "val" {
+									continue
+								}
+								if !yield(C16Case{Part: "contents-expand", Path: where, Value: v, Expand: ex, Env: e, Fmt: f}) {
+									return
+								}
+							}
+						}
+					}
+				}
+			}
+			// every pair of documented expandable leaves, each referring to its own variable
+			var docd []cfgLeaf
+			documented, _ := env.Data["documented"].(map[string]bool)
+			for _, lf := range leaves {
+				k := pathKey(lf.Path)
+				if documented[k] && !strings.Contains(k, "contents") {
+					switch lf.Kind {
+					case "string", "strptr", "strlist", "strmap":
+						docd = append(docd, lf)
+					}
+				}
+			}
+			for i, a := range docd {
+				for _, b := range docd[i+1:] {
+					if !yield(C16Case{Part: "expand-pair", Path: a.Path, Kind: a.Kind, Path2: b.Path, Kind2: b.Kind}) {
+						return
+					}
+				}
+			}
 		},
 		Check: checkC16,
 	})
@@ -194,7 +327,16 @@ func mappingOf(c C16Case) func(string) string {
 	if c.NilMap {
 		return nil
 	}
-	return func(k string) string { return c.Env[k] }
+	return envFunc(c.Env)
+}
+
+func envFunc(e map[string]string) func(string) string {
+	return func(k string) string {
+		if v, ok := e[k]; ok {
+			return v
+		}
+		return e["*"]
+	}
 }
 
 func pathKey(p []string) string {
@@ -213,6 +355,10 @@ func checkC16(env *engine.Env, ci any) engine.Outcome {
 	var out engine.Outcome
 	out.Nontrivial = true
 	documented := env.Data["documented"].(map[string]bool)
+	overrideKey = "deb"
+	if c.Fmt != "" {
+		overrideKey = c.Fmt
+	}
 	viol := func(sig, format string, a ...any) {
 		out.Violations = append(out.Violations, engine.Violation{Sig: sig, Detail: fmt.Sprintf(format, a...)})
 	}
@@ -221,11 +367,24 @@ func checkC16(env *engine.Env, ci any) engine.Outcome {
 		// a valid document that reaches the level, plus the undefined key there
 		doc := c16Base()
 		path := append(append([]string{}, c.Path...), c.Inject)
-		doc = docWith(doc, path, "x")
-		if len(c.Path) > 0 && c.Path[len(c.Path)-1] == "[]" {
-			// list element level: make the element otherwise valid
+		var inj any = "x"
+		switch c.IVal {
+		case "map":
+			inj = map[string]any{"a": "b"}
+		case "list":
+			inj = []any{"a", "b"}
+		case "null":
+			inj = nil
 		}
+		doc = docWith(doc, path, inj)
 		text := fixture.Doc(doc).YAML()
+		if c.Syntax != "" {
+			var ok bool
+			if text, ok = respell(text, c.Inject, c.Syntax); !ok {
+				out.HarnessError = "cannot respell the injected key in:\n" + text
+				return out
+			}
+		}
 		// control: the same document without the injected key must parse (else the rejection proves nothing)
 		ctrl := c16Base()
 		if len(c.Path) > 0 {
@@ -234,7 +393,7 @@ func checkC16(env *engine.Env, ci any) engine.Outcome {
 		}
 		_, cerr := parseYAML(fixture.Doc(ctrl).YAML(), noEnv)
 		_, err := parseYAML(text, noEnv)
-		out.Key = fmt.Sprintf("unknown:%s:%s:%v", pathKey(c.Path), c.Inject, err != nil)
+		out.Key = fmt.Sprintf("unknown:%s:%s:%s:%s:%s:%v", pathKey(c.Path), c.Inject, c.Syntax, c.IVal, c.Fmt, err != nil)
 		if cerr != nil {
 			out.HarnessError = fmt.Sprintf("control document for level %q does not parse: %v", pathKey(c.Path), cerr)
 			return out
@@ -278,7 +437,7 @@ func checkC16(env *engine.Env, ci any) engine.Outcome {
 			cfg, err = nfpm.ParseWithEnvMapping(strings.NewReader(text), nil)
 		}
 		key := pathKey(c.Path)
-		out.Key = fmt.Sprintf("expand:%s:%q:%v:%v", key, c.Value, c.Env, c.NilMap)
+		out.Key = fmt.Sprintf("expand:%s:%s:%q:%v:%v", key, c.Fmt, c.Value, c.Env, c.NilMap)
 		if err != nil {
 			// some leaves do not take arbitrary strings (enumerations are not validated at parse time; this is unexpected)
 			viol("parse:rejects-valid:"+key, "document rejected: %v\n%s", err, text)
@@ -289,7 +448,7 @@ func checkC16(env *engine.Env, ci any) engine.Outcome {
 			out.HarnessError = "cannot read back " + key
 			return out
 		}
-		m := func(k string) string { return c.Env[k] }
+		m := envFunc(c.Env)
 		hasRef := strings.Contains(c.Value, "$")
 		isContents := strings.Contains(key, "contents.")
 		switch c.Kind {
@@ -385,7 +544,7 @@ func checkC16(env *engine.Env, ci any) engine.Outcome {
 		doc := docWith(c16Base(), c.Path, []any{entry})
 		text := fixture.Doc(doc).YAML()
 		cfg, err := parseYAML(text, mappingOf(c))
-		out.Key = fmt.Sprintf("contents:%s:%q:%s", pathKey(c.Path), c.Value, c.Expand)
+		out.Key = fmt.Sprintf("contents:%s:%s:%q:%s:%v", pathKey(c.Path), c.Fmt, c.Value, c.Expand, c.Env)
 		if err != nil {
 			viol("parse:rejects-valid:contents", "document rejected: %v\n%s", err, text)
 			return out
@@ -398,7 +557,7 @@ func checkC16(env *engine.Env, ci any) engine.Outcome {
 		src, dst := v.FieldByName("Source").String(), v.FieldByName("Destination").String()
 		wantSrc, wantDst := "s-"+c.Value, "/d-"+c.Value
 		if c.Expand == "true" {
-			m := func(k string) string { return c.Env[k] }
+			m := envFunc(c.Env)
 			wantSrc, wantDst = strings.TrimSpace(os.Expand(wantSrc, m)), strings.TrimSpace(os.Expand(wantDst, m))
 		}
 		if src != wantSrc || dst != wantDst {
@@ -408,6 +567,8 @@ func checkC16(env *engine.Env, ci any) engine.Outcome {
 			}
 			viol("expand:contents:"+cls+":"+pathKey(c.Path), "contents entry (expand: %s) src/dst %q,%q read back as %q,%q; expected %q,%q", c.Expand, entry["src"], entry["dst"], src, dst, wantSrc, wantDst)
 		}
+	case "expand-pair", "all-at-once":
+		checkC16Multi(env, c, documented, &out, viol)
 	case "passphrase":
 		vars := []string{"NFPM_PASSPHRASE", "NFPM_DEB_PASSPHRASE", "NFPM_RPM_PASSPHRASE", "NFPM_APK_PASSPHRASE"}
 		envm := map[string]string{}
@@ -501,4 +662,150 @@ func parseEntryPoints(env *engine.Env, text string) map[string]error {
 		f.Close()
 	}
 	return res
+}
+
+
+// respell rewrites the line "<key>: x" of a rendered document in another YAML spelling of the same mapping key.
+func respell(text, key, syntax string) (string, bool) {
+	re := regexp.MustCompile(`(?m)^(\s*(?:- )?)` + regexp.QuoteMeta(key) + `: x$`)
+	m := re.FindStringSubmatchIndex(text)
+	if m == nil {
+		return text, false
+	}
+	prefix := text[m[2]:m[3]]
+	pad := strings.Repeat(" ", len(prefix))
+	var repl string
+	switch syntax {
+	case "quoted":
+		repl = prefix + `"` + key + `": x`
+	case "explicit":
+		repl = prefix + "? " + key + "\n" + pad + ": x"
+	case "merge":
+		repl = prefix + "<<: {" + key + ": x}"
+	case "tagged":
+		repl = prefix + "!!str " + key + ": x"
+	default:
+		return text, false
+	}
+	return text[:m[0]] + repl + text[m[1]:], true
+}
+
+// leafDocValue wraps a string value the way the leaf's kind needs it in a document.
+func leafDocValue(kind, v string) any {
+	switch kind {
+	case "strlist":
+		return []any{v, "keep"}
+	case "strmap":
+		return map[string]any{"Key": v}
+	}
+	return v
+}
+
+// leafRead reads a leaf back as a list of strings (string: one item; list: its items; map: the value of Key).
+func leafRead(cfg nfpm.Config, l cfgLeaf) ([]string, bool) {
+	got, ok := getDeep(reflect.ValueOf(cfg), l.Path)
+	if !ok {
+		return nil, false
+	}
+	switch l.Kind {
+	case "string":
+		return []string{got.String()}, true
+	case "strptr":
+		if got.Kind() == reflect.Ptr {
+			if got.IsNil() {
+				return []string{""}, true
+			}
+			return []string{got.Elem().String()}, true
+		}
+		return []string{got.String()}, true
+	case "strlist":
+		var g []string
+		for i := 0; i < got.Len(); i++ {
+			g = append(g, got.Index(i).String())
+		}
+		return g, true
+	case "strmap":
+		if e := got.MapIndex(reflect.ValueOf("Key")); e.IsValid() {
+			return []string{e.String()}, true
+		}
+		return []string{""}, true
+	}
+	return nil, false
+}
+
+// leafWant: what a leaf holding value v must read back as (expanded says whether the field is an expanded one).
+func leafWant(kind, v string, expanded bool, m func(string) string) []string {
+	if expanded {
+		v = os.Expand(v, m)
+	}
+	if kind == "strlist" {
+		return []string{v, "keep"}
+	}
+	return []string{v}
+}
+
+func checkC16Multi(env *engine.Env, c C16Case, documented map[string]bool, out *engine.Outcome, viol func(string, string, ...any)) {
+	type set struct {
+		leaf     cfgLeaf
+		value    string
+		expanded bool
+	}
+	var sets []set
+	envm := map[string]string{}
+	switch c.Part {
+	case "expand-pair":
+		sets = []set{{cfgLeaf{Path: c.Path, Kind: c.Kind}, "pre-${A}", true}, {cfgLeaf{Path: c.Path2, Kind: c.Kind2}, "${B}-post", true}}
+		envm["A"], envm["B"] = "val-a", "val-b"
+		out.Key = fmt.Sprintf("pair:%s:%s", pathKey(c.Path), pathKey(c.Path2))
+	case "all-at-once":
+		leaves, _ := configShape()
+		for i, lf := range leaves {
+			switch lf.Kind {
+			case "string", "strptr", "strlist", "strmap":
+			default:
+				continue
+			}
+			k := pathKey(lf.Path)
+			if k == "version_schema" {
+				continue // stays "none": the version is then taken verbatim
+			}
+			if c.Mode == "refs" && documented[k] && !strings.Contains(k, "contents") {
+				name := fmt.Sprintf("V%d", i)
+				envm[name] = fmt.Sprintf("val%d-%s", i, k)
+				sets = append(sets, set{lf, "${" + name + "}", true})
+			} else {
+				sets = append(sets, set{lf, fmt.Sprintf("u%d-%s", i, k), false})
+			}
+		}
+		envm["*"] = "HOSTILE"
+		out.Key = "all-at-once:" + c.Mode + ":" + c.Fmt
+	}
+	doc := c16Base()
+	for _, s := range sets {
+		setDeep(doc, s.leaf.Path, leafDocValue(s.leaf.Kind, s.value))
+	}
+	text := fixture.Doc(doc).YAML()
+	m := envFunc(envm)
+	cfg, err := parseYAML(text, m)
+	if err != nil {
+		viol("parse:rejects-valid:"+c.Part, "document rejected: %v\n%s", err, text)
+		return
+	}
+	out.Transitions += len(sets)
+	for _, s := range sets {
+		key := pathKey(s.leaf.Path)
+		got, ok := leafRead(cfg, s.leaf)
+		if !ok {
+			out.HarnessError = "cannot read back " + key
+			return
+		}
+		want := leafWant(s.leaf.Kind, s.value, s.expanded, m)
+		if strings.Join(got, "\x00") != strings.Join(want, "\x00") {
+			cls := "plain-value-changed"
+			if s.expanded {
+				cls = "documented-field"
+			}
+			viol("expand:"+cls+":"+c.Part+":"+key, "%s set to %q together with %d other fields (mapping %v): read back as %q, expected %q", key, s.value, len(sets)-1, envm, got, want)
+		}
+	}
 }
